@@ -204,6 +204,8 @@ class CarrierGrid(Case):
 
         from pyvc.contract import RealMk
 
+        # the carrier variants decide the element type themselves: dtype requests of the base grid are dropped
+        values = {k_: v_ for k_, v_ in values.items() if not str(k_).startswith("dtype")}
         env = self.base.declare(RealMk(values))
         kind, name = variant
         if kind == "timefrac":
